@@ -111,6 +111,9 @@ struct Outcome {
     pending_read: Option<u64>,
     /// in-memory state of the live object (verif hook), part of the state fingerprint
     mem: (u64, u32, u64, u64, u32, Vec<u32>),
+    /// data files the head has left behind since the last sync point whose last OBSERVED fsync
+    /// covers less than their final size: (file name, bytes covered)
+    left_behind_unsynced: Vec<(String, u64)>,
 }
 
 /// Replays `hist` on a fresh directory with the real FreezerFiles; checks every return value
@@ -137,11 +140,17 @@ fn replay_files(dir: &Path, compression: bool, hist: &[Op]) -> Outcome {
                 last_is_append: false,
                 pending_read: None,
                 mem: Default::default(),
+                left_behind_unsynced: vec![],
             };
         }
     };
     let mut mark = mark_of(&read_disk(dir));
     let mut last_read: Option<u64> = None;
+    fsync_watch::enable();
+    fsync_watch::forget(dir);
+    // sizes of all files at the last sync point (sync / truncate / reopen), as before; observed
+    // fsyncs since then raise them
+    let mut at_mark: Disk = read_disk(dir);
     for (step, op) in hist.iter().enumerate() {
         match *op {
             Op::Append(size) => {
@@ -162,6 +171,8 @@ fn replay_files(dir: &Path, compression: bool, hist: &[Op]) -> Outcome {
                     reference.truncate(k as usize);
                 }
                 mark = mark_of(&read_disk(dir));
+                at_mark = read_disk(dir);
+                fsync_watch::forget(dir);
             }
             Op::Sync => {
                 if let Err(e) = files.sync_all() {
@@ -169,6 +180,8 @@ fn replay_files(dir: &Path, compression: bool, hist: &[Op]) -> Outcome {
                     break;
                 }
                 mark = mark_of(&read_disk(dir));
+                at_mark = read_disk(dir);
+                fsync_watch::forget(dir);
             }
             Op::Retrieve(k) => {
                 match files.retrieve(k) {
@@ -187,10 +200,12 @@ fn replay_files(dir: &Path, compression: bool, hist: &[Op]) -> Outcome {
                     Ok(f) => f,
                     Err(e) => {
                         problem.get_or_insert(("crashfree-reopen".into(), format!("step {step}: reopen failed: {e}")));
-                        return Outcome { disk: read_disk(dir), mark, reference, problem, last_is_append: false, pending_read: None, mem: Default::default() };
+                        return Outcome { disk: read_disk(dir), mark, reference, problem, last_is_append: false, pending_read: None, mem: Default::default(), left_behind_unsynced: vec![] };
                     }
                 };
                 mark = mark_of(&read_disk(dir));
+                at_mark = read_disk(dir);
+                fsync_watch::forget(dir);
             }
         }
         // crash-free conformance with the reference after every step
@@ -225,7 +240,21 @@ fn replay_files(dir: &Path, compression: bool, hist: &[Op]) -> Outcome {
     let mem = files.verif_state();
     drop(files);
     let disk = read_disk(dir);
+    // data files that are no longer the head: what does their last fsync cover?
+    let observed = fsync_watch::synced_under(dir);
+    let fin = mark_of(&disk);
+    let mut left_behind_unsynced = vec![];
+    for (name, bytes) in &disk {
+        if !name.starts_with("blk") || *name == blk(fin.head_id) {
+            continue;
+        }
+        let covered = observed.get(name).copied().unwrap_or(0).max(at_mark.get(name).map(|b| b.len() as u64).unwrap_or(0)).min(bytes.len() as u64);
+        if covered < bytes.len() as u64 {
+            left_behind_unsynced.push((name.clone(), covered));
+        }
+    }
     Outcome {
+        left_behind_unsynced,
         mem,
         disk,
         mark,
@@ -244,6 +273,9 @@ struct Cut {
     /// None = head data file absent
     data_len: Option<u64>,
     index_len: u64,
+    /// a data file the head has left behind, cut back into the part no observed fsync covers
+    #[serde(default)]
+    old: Option<(String, u64)>,
 }
 
 /// All crash images of `o` per the property's quantifier.
@@ -258,7 +290,19 @@ fn crash_cuts(o: &Outcome) -> Vec<Cut> {
     let lo = o.mark.index_len.min(fin.index_len);
     for d in &data_lens {
         for i in lo..=fin.index_len {
-            cuts.push(Cut { data_len: *d, index_len: i });
+            cuts.push(Cut { data_len: *d, index_len: i, old: None });
+        }
+    }
+    // power loss: everything written later reached the disk, the unsynced tail of a file the head
+    // has left behind did not
+    for (name, covered) in &o.left_behind_unsynced {
+        let full = o.disk.get(name).map(|b| b.len() as u64).unwrap_or(0);
+        for l in [*covered, (*covered + full) / 2, full.saturating_sub(1)] {
+            if l < full {
+                for i in [fin.index_len, lo] {
+                    cuts.push(Cut { data_len: Some(fin.head_len), index_len: i, old: Some((name.clone(), l)) });
+                }
+            }
         }
     }
     cuts
@@ -281,6 +325,11 @@ fn apply_cut(o: &Outcome, cut: &Cut) -> Disk {
     if let Some(b) = d.get_mut("INDEX") {
         b.truncate(cut.index_len as usize);
     }
+    if let Some((name, l)) = &cut.old {
+        if let Some(b) = d.get_mut(name) {
+            b.truncate(*l as usize);
+        }
+    }
     d
 }
 
@@ -294,7 +343,10 @@ fn fully_written(o: &Outcome, cut: &Cut) -> u64 {
         let data_ok = if *fid == fin.head_id {
             matches!(cut.data_len, Some(l) if l >= *end)
         } else {
-            true
+            match &cut.old {
+                Some((name, l)) if *name == blk(*fid) => *l >= *end,
+                _ => true,
+            }
         };
         if idx_ok && data_ok {
             n = k as u64;
@@ -430,11 +482,14 @@ fn crash_one(ctx: &Ctx, compression: bool, hist: &[Op]) -> Report {
     if o.problem.is_some() {
         return report;
     }
-    let cuts = if o.last_is_append { crash_cuts(&o) } else { vec![Cut { data_len: Some(mark_of(&o.disk).head_len), index_len: mark_of(&o.disk).index_len }] };
+    let cuts = if o.last_is_append { crash_cuts(&o) } else { vec![Cut { data_len: Some(mark_of(&o.disk).head_len), index_len: mark_of(&o.disk).index_len, old: None }] };
+    if o.last_is_append && mark_of(&o.disk).head_id != o.mark.head_id {
+        report.count(if o.left_behind_unsynced.is_empty() { "rollover_states_whose_left_behind_files_are_covered_by_an_observed_fsync" } else { "rollover_states_with_an_unsynced_left_behind_file" }, 1);
+    }
     for cut in &cuts {
         report.evaluations += 1;
         report.transitions += 1;
-        let torn = cut.data_len != Some(mark_of(&o.disk).head_len) || cut.index_len != mark_of(&o.disk).index_len;
+        let torn = cut.data_len != Some(mark_of(&o.disk).head_len) || cut.index_len != mark_of(&o.disk).index_len || cut.old.is_some();
         match check_recovery(&dir.join("crash"), compression, &o, cut) {
             Ok(n) => {
                 report.outcomes.insert(fp(&(n, o.reference.len() as u64 - n)));
@@ -672,7 +727,7 @@ fn freezer_one(ctx: &Ctx, chain: &[BlockView], hist: &[FOp]) -> Report {
     // crash images of the last freeze: the tail written by it, cut everywhere
     let disk = read_disk(&dir);
     let reference: Vec<Vec<u8>> = (1..=n_ref).map(|i| chain[i as usize].data().as_slice().to_vec()).collect();
-    let o = Outcome { disk, mark, reference, problem: None, last_is_append: true, pending_read: None, mem: Default::default() };
+    let o = Outcome { disk, mark, reference, problem: None, last_is_append: true, pending_read: None, mem: Default::default(), left_behind_unsynced: vec![] };
     let cuts = crash_cuts(&o);
     let crash_dir = thread_dir(ctx, "c09f").join("crash");
     for cut in &cuts {
@@ -750,7 +805,7 @@ pub fn meta(tier: Tier) -> Meta {
     Meta {
         id: "C09",
         level: "fault_enumeration",
-        rule: "BFS over all histories of {Append(size), Truncate(k), Sync, Reopen} on the real FreezerFiles (max_file_size=40, compression off and on), states deduplicated by on-disk image + last-synced marks; for every new state every crash image: head data file cut to every byte length in [synced, final] (or absent / 0..final when the head rolled over since the last sync) x INDEX cut to every byte length in [synced, final]; each image is reopened with the real repair code and judged against the reference item list. Second family: the same through Freezer::{open,freeze,retrieve,truncate} on real packed blocks with a 700-byte file limit. A case is non-trivial iff the image is torn (at least one of the two files shorter than final); distinct = distinct (history, cut).",
+        rule: "BFS over all histories of {Append(size), Truncate(k), Sync, Reopen} on the real FreezerFiles (max_file_size=40, compression off and on), states deduplicated by on-disk image + last-synced marks; for every new state every crash image: head data file cut to every byte length in [synced, final] (or absent / 0..final when the head rolled over since the last sync) x INDEX cut to every byte length in [synced, final]; each image is reopened with the real repair code and judged against the reference item list. Files the head has left behind since the last sync point are covered by what the process itself is OBSERVED to fsync (the executable interposes fsync / fdatasync and records the file size at every completed call): a left-behind file whose last observed fsync covers less than its final size is additionally cut back into the uncovered part (with the newer files and the index complete). Second family: the same through Freezer::{open,freeze,retrieve,truncate} on real packed blocks with a 700-byte file limit. A case is non-trivial iff the image is torn (at least one of the two files shorter than final); distinct = distinct (history, cut).",
         assumptions: &[
             "only the head data file and INDEX are torn (as the property's quantifier states); older data files are intact",
             "truncate and reopen are treated as sync points",
